@@ -253,7 +253,8 @@ impl FmtAttribute {
                     .args
                     .iter()
                     .nth(i)
-                    .and_then(|a| a.expr.ident().filter(|_| a.alias.is_none()))?
+                    // Named arguments may be referred by their position too.
+                    .and_then(|a| a.expr.ident())?
                     .unraw()
                     .to_string(),
             };
